@@ -44,9 +44,12 @@ def main():
                     rcs, outs = sh(SUITE, cwd=wt, env=env_clean)
                     srcs = rcs == 0
                 t0 = time.time()
-                env = dict(os.environ, VERIF_REPO=wt, VERIF_MIN_BUDGET_S="20", VERIF_NO_EVIDENCE="1")
+                env = dict(os.environ, VERIF_REPO=wt, VERIF_MIN_BUDGET_S=os.environ.get("VERIF_MIN_BUDGET_S", "20"), VERIF_NO_EVIDENCE="1")
                 rcc, outc = sh([os.path.join(VERIF, "check"), prop, "--tier", "quick"], env=env)
                 vio = [l for l in outc.splitlines() if l.startswith("violation class=")]
+                import re as _re
+                mm = _re.search(r"runs=(\d+)/(\d+).*violations=(\d+)", outc)
+                margin = {"runs_executed": int(mm.group(1)), "planned": int(mm.group(2)), "violating_runs_before_stop": int(mm.group(3))} if mm else {}
                 others = {}
                 if not (rcc == 1 and vio) and "--others" in sys.argv:
                     for op in ["C12", "C11", "C15", "C03", "C04", "C14", "C17"]:
@@ -65,12 +68,12 @@ def main():
                     "confirmed": {"patch_applies": rca == 0, "demo_exit_unchanged": rc0, "demo_exit_changed": rc1,
                                   "suite_passes_with_change": srcs, "what_i_ran": "selftest/seeded.py: scratch worktree of /repo HEAD; demo.py before/after `git apply patch.diff`; repo suite with the 4 baseline failures deselected; ./check <prop> --tier quick with VERIF_REPO=<patched worktree>"},
                     "detected_by_quick_check": rcc == 1 and bool(vio), "check_exit": rcc, "check_wall_s": round(time.time() - t0, 1),
-                    "violation": [v[:400] for v in vio[:2]],
+                    "violation": [v[:400] for v in vio[:2]], "margin": margin,
                 })
                 if others:
                     meta["other_checks"] = others
                 json.dump(meta, open(meta_p, "w"), indent=1)
-                print(sid, "applies" if rca == 0 else "PATCH FAILS", f"demo {rc0}->{rc1}", f"suite_ok={srcs}", "DETECTED" if meta["detected_by_quick_check"] else f"MISSED(exit {rcc})", vio[:1], flush=True)
+                print(sid, "applies" if rca == 0 else "PATCH FAILS", f"demo {rc0}->{rc1}", f"suite_ok={srcs}", "DETECTED" if meta["detected_by_quick_check"] else f"MISSED(exit {rcc})", margin, [v[:160] for v in vio[:1]], flush=True)
                 if rcc == 2:
                     print(outc[-2000:])
             finally:
